@@ -231,8 +231,8 @@ PROPS = {
 
     "C07": {
         "level": "proof",
-        "lean_modules": ["SqlizeModel.Props.C07", "SqlizeModel.Props.TieElement", "SqlizeModel.Props.TieApiHash"],
-        "theorems": ["Sqlize.C07.different_schema_different_value", "Sqlize.C07.different_schema_different_value_from_scripts", "Sqlize.hashOf_inj", "Sqlize.tableHashOf_inj", "Sqlize.intercalate_inj", "Sqlize.C07.empty_is_zero", "Sqlize.C07.column_order_irrelevant", "Sqlize.C07.same_tables_same_value", "Sqlize.C07.case_option_irrelevant", "Sqlize.sortStrs_perm", "Sqlize.C07.value_is_a_function_of_the_schema", "Sqlize.C07.same_schema_same_value_from_scripts", "Sqlize.hash_of_schema", "Sqlize.Table.hashWith_spec", "Sqlize.Index.hashInput_live", "Sqlize.Tie.element_skeleton_as_modelled", "Sqlize.Tie.api_hash_skeleton_as_modelled"],
+        "lean_modules": ["SqlizeModel.Proofs.ScopeB", "SqlizeModel.Props.C07", "SqlizeModel.Props.TieElement", "SqlizeModel.Props.TieApiHash"],
+        "theorems": ["Sqlize.proved_hash", "Sqlize.C07.different_schema_different_value", "Sqlize.C07.different_schema_different_value_from_scripts", "Sqlize.hashOf_inj", "Sqlize.tableHashOf_inj", "Sqlize.intercalate_inj", "Sqlize.C07.empty_is_zero", "Sqlize.C07.column_order_irrelevant", "Sqlize.C07.same_tables_same_value", "Sqlize.C07.case_option_irrelevant", "Sqlize.sortStrs_perm", "Sqlize.C07.value_is_a_function_of_the_schema", "Sqlize.C07.same_schema_same_value_from_scripts", "Sqlize.hash_of_schema", "Sqlize.Table.hashWith_spec", "Sqlize.Index.hashInput_live", "Sqlize.Tie.element_skeleton_as_modelled", "Sqlize.Tie.api_hash_skeleton_as_modelled"],
         "suites": [{"name": "hash", "repeat_processes": 1, "repeat_processes_thorough": 5}, {"name": "script"}],
         "corr_points": None,
         "rule": "hash suite: random schemas (1..4 tables with indexes) x presentations {canonical, one statement per call, alias spelling + keyword "
